@@ -74,8 +74,12 @@ def collinear_strategy(draw, tier):
         lv = draw(st.sampled_from([3, 4, 4, 3, 5, 7]))
     else:
         lv = draw(st.integers(3, 9))
-    return {"pos": pos, "r": rad, "parents": par, "axis": axis, "c": c, "level": lv, "two": two,
-            "feature": draw(st.integers(0, 5)) == 0 and not two}
+    # the unit of length is the user's: the same neuron in millimetres or in tenths of a micrometre
+    unit = draw(st.sampled_from([1.0, 1.0, 1.0, 1.0, 0.001, 0.01, 100.0]))
+    if unit != 1.0:
+        c = [0.0, 0.0, 0.0]  # float32 storage: keep the relative precision of small coordinates
+    return {"pos": [p * unit for p in pos], "r": [r * unit for r in rad], "parents": par, "axis": axis, "c": c, "level": lv,
+            "two": two, "feature": draw(st.integers(0, 5)) == 0 and not two, "unit": unit}
 
 
 def _build(case):
@@ -115,6 +119,7 @@ def run_collinear(case, ctx):
     lv = case["level"]
     if any(r == 0 for r in R):
         ctx.cls("collinear:zero-radius-node")
+    ctx.cls(f"unit:{case.get('unit', 1.0)}")
     ctx.cls("two-arm" if case["two"] else "chain", f"level:{lv}", "overlapping-neighbours" if n_overlap else "all-apart",
             "mc-term" if case["two"] and lv >= 5 else "analytic-only")
     ctx.nontrivial(n >= 3 and overlap_unequal)
@@ -150,7 +155,7 @@ def levels12_strategy(draw, tier):
         # nodes of radius zero anywhere: tip, pass-through node, furcation, root
         for _ in range(draw(st.integers(1, 3))):
             t["r"][draw(st.integers(0, n - 1))] = 0.0
-    return {"tree": t}
+    return {"tree": t, "edit": [draw(st.integers(0, n - 1)), draw(st.integers(1, 64)) / 16.0, draw(st.integers(0, 2))]}
 
 
 def run_levels12(case, ctx):
@@ -174,12 +179,44 @@ def run_levels12(case, ctx):
     g2 = float(ctx.lib("get_volume[accuracy=2]", get_volume, tree, accuracy=2))
     ctx.check(abs(g1 - v1) <= 1e-5 * v1 + 1e-12, "level1/sum-of-node-spheres", lambda: f"got {g1!r}, expected {v1!r}")
     ctx.check(abs(g2 - v2) <= 1e-5 * v2 + 1e-12, "level2/spheres-plus-frusta", lambda: f"got {g2!r}, expected {v2!r}")
+    # the volume is a function of the tree as it is now: after a radius has been edited (in place through a node
+    # handle, on a copy, or by RadiusReseter) the same call reports the new sums
+    if "edit" in case:
+        i, newr, how = case["edit"]
+        if how == 0:
+            tree.node(i).r = newr
+            tgt = tree
+            R2 = R.copy()
+            R2[i] = float(np.float32(newr))
+            ctx.cls("volume-asked-again-after-an-in-place-edit")
+        elif how == 1:
+            tgt = tree.copy()
+            tgt.node(i).r = newr
+            R2 = R.copy()
+            R2[i] = float(np.float32(newr))
+            ctx.cls("volume-asked-again-on-an-edited-copy")
+        else:
+            from swcgeom.transforms import RadiusReseter
+
+            tgt = RadiusReseter(newr)(tree)
+            R2 = np.full_like(R, float(np.float32(newr)))
+            ctx.cls("volume-asked-again-on-a-derived-tree")
+        w1 = float(np.sum(4.0 / 3.0 * math.pi * R2 ** 3))
+        w2 = w1
+        for j, p in enumerate(t["parents"]):
+            if p >= 0:
+                w2 += math.pi * seg[j] * (R2[j] ** 2 + R2[j] * R2[p] + R2[p] ** 2) / 3.0
+        h1 = float(ctx.lib("get_volume[accuracy=1]", get_volume, tgt, accuracy=1))
+        h2 = float(ctx.lib("get_volume[accuracy=2]", get_volume, tgt, accuracy=2))
+        ctx.check(abs(h1 - w1) <= 1e-5 * w1 + 1e-12, "level1/sum-of-node-spheres-after-an-edit", lambda: f"got {h1!r}, expected {w1!r}")
+        ctx.check(abs(h2 - w2) <= 1e-5 * w2 + 1e-12, "level2/spheres-plus-frusta-after-an-edit", lambda: f"got {h2!r}, expected {w2!r}")
 
 
 SUBCHECKS = [
     Sub("collinear", collinear_strategy, run_collinear, quick=700, thorough=8000, shards_quick=8,
         required={"chain": 200, "two-arm": 80, "overlapping-neighbours": 200, "all-apart": 20, "mc-term": 5,
-                  "level:3": 30, "level:9": 10, "via-extract_feature": 20}),
+                  "level:3": 30, "level:9": 10, "via-extract_feature": 20, "unit:0.001": 40, "unit:100.0": 40}),
     Sub("levels12", levels12_strategy, run_levels12, quick=800, thorough=10000, shards_quick=2,
-        required={"furcations>=2": 100, "single-node": 5, "zero-radius-node-with-children": 40}),
+        required={"furcations>=2": 100, "single-node": 5, "zero-radius-node-with-children": 40,
+                  "volume-asked-again-after-an-in-place-edit": 100, "volume-asked-again-on-a-derived-tree": 100}),
 ]
